@@ -67,13 +67,16 @@ ASSUMPTIONS = [
 QUOTA = 500
 
 
+QUICK_CASES = {"pipeline": 700}  # ~70 template applications per case
+
+
 def _plan(tier: str) -> list[tuple[str, int, int]]:
     """(unit, cases per shard, sub-shards)"""
-    heavy = {"select": 2, "sort": 2, "arith2": 2, "numstr": 2}
+    heavy = {"select": 2, "sort": 2, "arith2": 2, "numstr": 2, "pipeline": 2}
     out = []
     for name in sorted(UNITS):
         if tier == "quick":
-            out.append((name, 2000, 1))
+            out.append((name, QUICK_CASES.get(name, 2000), 1))
         else:
             n = 8 * heavy.get(name, 1)
             out.append((name, 60_000 // n, n))
@@ -103,6 +106,7 @@ def floors(tier: str) -> dict[str, int]:
         "string_vs_number_comparisons": 20_000 * k,
         "template_local_variable_applications": 10_000 * k,
         "set:local_binding_sites": 6,
+        "filter_output_pipelines": 20_000 * k,
         "history_panel_comparisons": 4_000,
         "priming_calls_state_checked": 1_000,
         "set:primed_filters": 70,
